@@ -654,6 +654,12 @@ package service
 //@        && (evres("service.timedCopy$1", 0) != nil ==> $arg0 == evres("service.timedCopy$1", 0).Status)
 //@   trace[C14,loop-continues-unless-expired] loop 1 each service.timedCopy$1 satisfies !expired
 
+// The address header of a reply is the SOCKS form of the sender of *this* datagram:
+// replyAddr := ParseAddr(addrWithoutZone(raddr)), both deterministic functions of their argument.
+//@ func addrWithoutZone
+//@   props C03 C18
+//@   pure
+
 //@ func timedCopy$1
 //@   props C03 C04 C16 C18
 //@   requires clientAddr != nil && clientConn != nil && validNatconn(targetConn) && l != nil
@@ -661,11 +667,21 @@ package service
 //@   requires saltSize == pure("shadowsocks.(*EncryptionKey).SaltSize", targetConn.cryptoKey) && bodyStart == saltSize + maxAddrLen
 //@   trace[C03,reads-into-body-area] each service.(*natconn).ReadFrom satisfies $arg0 == targetConn && $arg1.$arr == pkt.$arr && $arg1.$off == pkt.$off + bodyStart && len($arg1) == len(pkt) - bodyStart
 //@   trace[C16,body-size-is-bytes-read] each service.(*natconn).ReadFrom satisfies bodyLen == $res0
-//@   trace[C03,address-header-before-body] each copy satisfies $arg0.$arr == pkt.$arr && $arg0.$off + len($arg1) == pkt.$off + bodyStart && sameslice($arg1, evres("socks.ParseAddr", 0))
+//@   trace[C03,one-read-per-reply] exactly 1 service.(*natconn).ReadFrom
+//@   trace[C03,address-header-is-this-sender] each copy satisfies $arg0.$arr == pkt.$arr && $arg0.$off + len($arg1) == pkt.$off + bodyStart \
+//@        && sameslice($arg1, pure("socks.ParseAddr", pure("service.addrWithoutZone", evres("service.(*natconn).ReadFrom", 1))))
+//@   trace[C03,address-header-written] exactly 1 copy when evcount("shadowsocks.Pack") == 1
 //@   trace[C03,encrypted-under-association-key] each shadowsocks.Pack satisfies $arg2 == targetConn.cryptoKey
-//@   trace[C03,plaintext-is-address-then-body] each shadowsocks.Pack satisfies $arg1.$arr == pkt.$arr && $arg1.$off + len(evres("socks.ParseAddr", 0)) == pkt.$off + bodyStart \
-//@        && len($arg1) == len(evres("socks.ParseAddr", 0)) + bodyLen && $arg0.$arr == pkt.$arr && $arg0.$off + saltSize == $arg1.$off
+//@   trace[C03,plaintext-is-address-then-body] each shadowsocks.Pack satisfies $arg1.$arr == pkt.$arr \
+//@        && $arg1.$off + len(pure("socks.ParseAddr", pure("service.addrWithoutZone", evres("service.(*natconn).ReadFrom", 1)))) == pkt.$off + bodyStart \
+//@        && len($arg1) == len(pure("socks.ParseAddr", pure("service.addrWithoutZone", evres("service.(*natconn).ReadFrom", 1)))) + bodyLen && $arg0.$arr == pkt.$arr && $arg0.$off + saltSize == $arg1.$off
+//@   trace[C03,header-then-encrypt] before copy shadowsocks.Pack
 //@   trace[C04,reply-goes-to-association-client] each net.PacketConn.WriteTo satisfies $recv == clientConn && $arg1 == clientAddr && sameslice($arg0, evres("shadowsocks.Pack", 0))
+//@   trace[C04,ip-sender-reply-is-encrypted] exactly 1 shadowsocks.Pack when evres("service.(*natconn).ReadFrom", 2) == nil \
+//@        && (len(pure("socks.ParseAddr", pure("service.addrWithoutZone", evres("service.(*natconn).ReadFrom", 1)))) == 7 \
+//@         || len(pure("socks.ParseAddr", pure("service.addrWithoutZone", evres("service.(*natconn).ReadFrom", 1)))) == 19)
+//@   trace[C04,encrypted-reply-is-sent] each shadowsocks.Pack satisfies $res1 == nil ==> evcount("net.PacketConn.WriteTo") == 1
+//@   trace[C04,nothing-sent-without-reply] atmost 1 net.PacketConn.WriteTo
 //@   trace[C16,client-bytes-are-bytes-written] each net.PacketConn.WriteTo satisfies proxyClientBytes == $res0
 //@   trace[C14,expiry-only-on-timeout] each service.(*natconn).ReadFrom satisfies expired ==> $res2 != nil
 
